@@ -47,6 +47,49 @@ Theorem C14_no_foreign :
   Forall (fun m => fnmatchb (m_chan m) p = true) got.
 Proof. intros pre ths sch F. exact (no_foreign_run facts pre ths sch F). Qed.
 
+(* messages of one channel published by one thread are received in publication order: every delivered
+   list and every queue is ordered per (publisher, channel), and what a subscription already received
+   precedes everything still queued.  `before m m'` := same publisher -> same channel -> seq m < seq m'. *)
+Theorem C14_fifo_per_thread_channel :
+  TransportGen.atomic_create = true ->
+  forall pre ths sch, NoDup pre -> Forall initial_th ths ->
+  let s := run facts sch (init pre ths) in
+  (forall t p pc got, nth_error (thr s) t = Some (TSub p pc got) -> ordered got) /\
+  (forall q c l, nth_error (heap s) q = Some (c, l) -> ordered l) /\
+  (forall t p pc got q c l m m', nth_error (thr s) t = Some (TSub p pc got) ->
+     nth_error (heap s) q = Some (c, l) -> In m got -> In m' l -> before m m').
+Proof. intros H pre ths sch N F. exact (fifo_observable facts pre ths sch (facts_atomic H) N F). Qed.
+
+(* drain: in any state reached after all publishers finished, a subscription that starts a scan and
+   terminates -- whatever the other subscriptions do meanwhile -- has emptied every matching channel *)
+Theorem C14_drain_complete :
+  forall pre ths sch1, Forall initial_th ths ->
+  let s1 := run facts sch1 (init pre ths) in
+  quiescent s1 ->
+  forall t p got0, nth_error (thr s1) t = Some (TSub p SStart got0) ->
+  forall sch2, let s2 := run facts sch2 s1 in
+  forall got, nth_error (thr s2) t = Some (TSub p SDone got) ->
+  forall c q, In (c, q) (dict s2) -> fnmatchb c p = true -> queue_of (heap s2) q = [].
+Proof.
+  intros pre ths sch1 F s1 Qs t p got0 Ht sch2.
+  apply (drain_complete_run facts s1 t p got0 sch2 gen_locked_ops); auto.
+  apply (run_invariant facts wf); [intros; eapply wf_step; eauto|]. apply init_wf; auto.
+Qed.
+
+(* ... and with the `*` pattern, once every thread is done, everything appended was delivered exactly once *)
+Theorem C14_drain_delivers_everything :
+  TransportGen.atomic_create = true ->
+  forall pre ths sch1 sch2 t got0, Forall initial_th ths ->
+  let s1 := run facts sch1 (init pre ths) in
+  quiescent s1 -> nth_error (thr s1) t = Some (TSub (PPrefix "") SStart got0) ->
+  let s2 := run facts sch2 s1 in
+  all_done s2 = true ->
+  reachable_queued s2 = [] /\ Permutation (appended s2) (delivered s2) /\ NoDup (delivered s2).
+Proof.
+  intros H pre ths sch1 sch2 t got0 F.
+  exact (drain_everything facts pre ths sch1 sch2 t got0 (facts_atomic H) gen_locked_ops F).
+Qed.
+
 (* The current tree: creation is not atomic, and the property is false -- T0 enters the factory,
    T1 performs a complete publish, T0 stores its fresh queue over T1's: T1's message is lost. *)
 Theorem C14_refuted_when :
@@ -69,6 +112,14 @@ Example ex_atomic_run :
   let s := run (mkConfig true true) (race_sched ++ repeat 2 40) (init [] (race_threads ++ [sub (PPrefix "")])) in
   all_done s = true /\ lost s = [] /\ map to_triple (delivered s) = [(1, 0, "c"); (0, 0, "c")]%string.
 Proof. vm_compute. auto. Qed.
+(* the drain hypotheses are satisfiable: after both publishers ran, a `*` subscription at SStart *)
+Example ex_drain_hyp :
+  let s1 := run (mkConfig true true) race_sched (init [] (race_threads ++ [sub (PPrefix "")])) in
+  quiescent s1 /\ nth_error (thr s1) 2 = Some (TSub (PPrefix "") SStart []) /\ all_done (run (mkConfig true true) (repeat 2 40) s1) = true.
+Proof. vm_compute. repeat split; repeat constructor. Qed.
+Example ex_ordered : ordered [mkMsg 0 0 "a"; mkMsg 1 0 "a"; mkMsg 0 1 "a"]%string /\ ~ ordered [mkMsg 0 1 "a"; mkMsg 0 0 "a"]%string.
+Proof. split; [repeat constructor; unfold before; simpl; intros; try discriminate; auto|].
+  simpl. intros [F _]. inversion F; subst. specialize (H1 eq_refl eq_refl). simpl in H1. inversion H1. Qed.
 Example ex_fnmatch : fnmatchb "b.x" (PPrefix "b.") = true /\ fnmatchb "a" (PPrefix "b.") = false /\
                      fnmatchb "a" (PExact "a") = true /\ fnmatchb "ab" (PExact "a") = false /\ fnmatchb "zz" (PPrefix "") = true.
 Proof. vm_compute. auto. Qed.
@@ -76,4 +127,7 @@ Proof. vm_compute. auto. Qed.
 Print Assumptions C14_conservation.
 Print Assumptions C14_exactly_once_at_end.
 Print Assumptions C14_no_foreign.
+Print Assumptions C14_fifo_per_thread_channel.
+Print Assumptions C14_drain_complete.
+Print Assumptions C14_drain_delivers_everything.
 Print Assumptions C14_refuted_when.
